@@ -15,7 +15,7 @@ import re
 from facts import (call_blocks, cn, callee, cname, roots, op_local, op_place, bool_switch, bool_origin, taint, arg_hits, base_ident,
                    assigns_to_field, place_fields)
 
-CRATES = ["boa_engine"]
+CRATES = ["boa_engine", "boa_ast"]
 EXPLANATION = (
     "Typestate/pairing rules over the drop-elaborated MIR of every function of boa_engine::bytecompiler "
     "(and every other function that owns a bytecompiler Register): each rule instance is an "
@@ -749,6 +749,10 @@ def run(db, rep, tier):
     r6(db, rep)
     r7(db, rep)
     r8(db, rep)
+    # R9 = C04-R7: scope indices (the static environment depth of every locator) are assigned by passes that agree on
+    # which children lie outside a statement's scope
+    import c04
+    c04.r7(db, rep)
     rep.assumptions += [
         "panicking paths (unwind edges, js_expect/expect failures) are outside these rules (they are C02's concern)",
     ]
